@@ -168,7 +168,13 @@ func strTruncateFunc(_ *ctx.EvalCtx, receiver object.Object, args ...object.Obje
 		}
 	}
 
-	newVal := val[:firstArg.Value] + ellipsis
+	// a negative limit keeps nothing
+	if limit < 0 {
+		limit = 0
+	}
+
+	// cut by characters, not by bytes, to keep multi-byte characters whole
+	newVal := string([]rune(val)[:limit]) + ellipsis
 
 	return &object.Str{Value: newVal}, nil
 }
